@@ -137,6 +137,11 @@ def run(ctx):
             if variant in ("bulktable", "pybulktable") and version == "v1":
                 continue
             agent = RA.Agent(db=[(tuple(o), v) for o, v in db], bulk_policy={"rows": ctx.rng.choice([None, None, 1, 2]), "cut": 0})
+            # every other SNMPv1 case talks to an agent with RFC 1157 semantics: the end of the view is
+            # error-status noSuchName, not an endOfMibView binding (seeded C16-51)
+            agent.v1_strict = version == "v1" and (i // len(protos)) % 2 == 0
+            if agent.v1_strict:
+                res.count("e2e:v1-strict-agent")
             client = W.make_client(agent, version, level)
             if i % 5 == 2 and not variant.startswith("py"):
                 # the client has a history: an earlier walk of the same table that its consumer
@@ -182,6 +187,11 @@ def run(ctx):
                     res.violate("e2e-table", case, "the agent's table", rows[1][:3], bad, {"kind": "table-wrong", "variant": variant})
             elif rows == ["error", ["authError"]]:
                 res.violate("e2e-table", case, "authentic response accepted", rows, "authentic response rejected", {"kind": "auth-reject-len127"})
+                continue
+            elif agent.v1_strict and rows[:1] == ["error"] and (rows[1][:1] == ["noSuchOID"] or rows[1][:3] == ["errorResponse", 2, "NoSuchOID"]) and len(agent.log) == 1:
+                # the FIRST request already ran into the end of the view (an empty table behind which
+                # nothing follows): an error-status on a first request surfaces — C08's judgement
+                res.count("e2e:v1-strict-first-request-at-end-of-view")
                 continue
             else:
                 res.violate("e2e-table", case, "rows", rows, f"{variant} raised", {"kind": "table-raised", "variant": variant})
